@@ -321,10 +321,44 @@ def replay_input(inp):
 
 
 def _job(j):
+    """explore all equality patterns symbolically; additionally replay every discharged pattern on the REAL code with real ints chosen by the
+    solver so that later-inserted elements are SMALLER than earlier ones: builtin set/dict iteration order of real ints (which the constant-hash
+    proxies cannot show) then differs from insertion order, so an implementation that leaks hash order is caught by a witness"""
     kind, na, nb, ops, twin, maxp = j
-    st, res = forksym.explore_harness("vf.checks.c24:make", (kind, na, nb, ops, twin), nproc=1, max_paths=maxp,
-                                      query_timeout_ms=10000)
-    return j, st, res
+    h = make(kind, na, nb, ops, twin)
+    eng = forksym.Engine(max_paths=maxp, query_timeout_ms=10000)
+    witnesses = []
+
+    def on_result(r):
+        if twin or r.status != "discharged" or len(witnesses) >= 40:
+            return
+        a, b, x = h.terms()
+        ts = a + b + x
+        if len(ts) < 2:
+            return
+        s = eng.solver
+        for shape in ("descending", "ascending"):
+            s.push()
+            try:
+                for i in range(len(ts)):
+                    s.add(ts[i] >= 0, ts[i] <= 40)
+                    for k in range(i + 1, len(ts)):
+                        s.add(z3.Or(ts[i] == ts[k], ts[i] > ts[k]) if shape == "descending" else z3.Or(ts[i] == ts[k], ts[i] < ts[k]))
+                if s.check() == z3.sat:
+                    witnesses.append(h.concretize(s.model(), None))
+            finally:
+                s.pop()
+
+    res = eng.explore(h.run, on_result=on_result)
+    slim = forksym._slim(res, h)
+    n_w = 0
+    for w in witnesses:
+        n_w += 1
+        if not replay_input(w):
+            slim.append({"status": "cex", "decisions": [], "why": "real-hash witness: the symbolic path is discharged but the real code fails on real ints", "input": w, "info": None})
+    st = eng.stats
+    st.witnesses = n_w
+    return j, st, slim
 
 
 def run(tier):
@@ -358,6 +392,7 @@ def run(tier):
     total = forksym.Stats()
     programs = 0
     samples = []
+    real_hash_witnesses = [0]
     for (j, st, res) in results:
         kind, na, nb, ops, twin, _ = j
         if twin:
@@ -366,6 +401,7 @@ def run(tier):
             continue
         programs += 1
         total.add(st)
+        real_hash_witnesses[0] += getattr(st, "witnesses", 0)
         if len(samples) < 6 and st.paths > 3:
             samples.append({"scenario": {"kind": kind, "|A0|": na, "|B0|": nb, "ops": list(ops)}, "paths": st.paths, "discharged": st.discharged})
         for r in res:
@@ -396,6 +432,7 @@ def run(tier):
         "branch_queries": total.branch_queries,
         "assert_queries": total.assert_queries,
         "solver_s": round(total.solver_s, 2),
+        "real_hash_witnesses_replayed_on_real_code": real_hash_witnesses[0],
         "samples": samples,
         "evaluations": total.paths,
         "distinct_nontrivial": total.paths,
